@@ -904,7 +904,9 @@ impl Transformer {
             _ => {}
         }
         // (an id for local styles is only needed when styles are injected at all)
-        if !orig_svg_attrs.contains_key("id") && self.context.config.add_auto_styles {
+        // (an empty id is no id)
+        let has_id = orig_svg_attrs.get("id").is_some_and(|id| !id.is_empty());
+        if !has_id && self.context.config.add_auto_styles {
             if let Some(local_id) = &self.context.local_style_id {
                 new_svg_attrs.insert("id", local_id.as_str());
             }
@@ -988,7 +990,7 @@ impl Transformer {
 
         let indent = 2;
         let mut tb = ThemeBuilder::new(&self.context, &element_set, &class_set);
-        if let Some(root_id) = root.get_attr("id") {
+        if let Some(root_id) = root.get_attr("id").filter(|id| !id.is_empty()) {
             // local styles are scoped to the root element's id: the author's, if given
             tb.scope_local_styles_to(&root_id);
         }
